@@ -170,6 +170,14 @@ class Rig:
                     self.elem_uid[key] = keep
             return self.last_read_ret
         self.mem.read = read_and_remember
+        orig_write = self.mem.write
+
+        def write_and_remember(memory, *a, **k):
+            if memory is not self.mgr and not hasattr(memory, 'uid'):      # a write issued by an element of the code itself
+                self.elem_uid[(id(memory), 'w')] = self.uid
+                self.uid += 1
+            return orig_write(memory, *a, **k)
+        self.mem.write = write_and_remember
         self._register()
 
     # ---- wiring
